@@ -24,12 +24,17 @@ class AstToSqlAlchemyOrmVisitor(common._CommonVisitors, visitor.NodeVisitor):
         self.root_model = root_model
         self.join_relationships: List[InstrumentedAttribute] = []
 
+    def _get_field(self, model: Type[DeclarativeMeta], name: str) -> ColumnClause:
+        ":meta private:"
+        # Only what the mapper knows is a field. Other attributes of the class
+        # (``metadata``, ``__init__``, ``__table__``, ...) are not.
+        if name not in inspect(model).mapper.all_orm_descriptors:
+            raise ex.InvalidFieldException(name)
+        return getattr(model, name)
+
     def visit_Identifier(self, node: ast.Identifier) -> ColumnClause:
         ":meta private:"
-        try:
-            return getattr(self.root_model, node.name)
-        except AttributeError:
-            raise ex.InvalidFieldException(node.name)
+        return self._get_field(self.root_model, node.name)
 
     def visit_Attribute(self, node: ast.Attribute) -> ColumnClause:
         ":meta private:"
@@ -44,10 +49,7 @@ class AstToSqlAlchemyOrmVisitor(common._CommonVisitors, visitor.NodeVisitor):
 
         # We'd like to reference the column on the related class:
         owner_cls = prop_inspect.entity.class_
-        try:
-            return getattr(owner_cls, node.attr)
-        except AttributeError:
-            raise ex.InvalidFieldException(node.attr)
+        return self._get_field(owner_cls, node.attr)
 
     def visit_Compare(self, node: ast.Compare) -> BinaryExpression:
         ":meta private:"
